@@ -202,7 +202,7 @@ def rule_key(fx, rep):
     rep.rule("C19-KEY", n, 1, ok, "Some(..) returns of get guarded by full key equality")
 
 
-def stores(fx, body):
+def stores(fx, body, _depth=0):
     """[(bb, idx_expr, value_expr)] — assignments through index_mut / get_unchecked_mut of self.data"""
     out = []
     for bb, j, s in body.stmts():
@@ -216,6 +216,18 @@ def stores(fx, body):
                 val = body.expr(s["rv"].get("op"), expand_named=True) if s["rv"]["k"] == "use" else None
                 out.append((bb, sl[0], val, s.get("line")))
         # direct place self.data[..] is impossible for Vec (goes through IndexMut)
+    # stores made by a `&mut self` helper of the table (`store_at(idx, key, data)`): taken at the call, with the helper's
+    # parameters replaced by the call's arguments
+    from facts import substitute_args
+    for bb, t in body.calls():
+        hb = fx.body(callee_name(t)) if callee_name(t) else None
+        if hb is None or hb is body or "transposition_table::TranspositionTable" not in norm(hb.name) or hb.kind != "AssocFn" or _depth > 0:
+            continue
+        if not t["args"] or strip_refs(body.expr(t["args"][0], expand_named=True, at=bb)) != ("arg", 1, "self"):
+            continue
+        actual = tuple(body.expr(a, expand_named=True, at=bb) for a in t["args"])
+        for (hbb, hidx, hval, hline) in stores(fx, hb, _depth + 1):
+            out.append((bb, substitute_args(hidx, actual), substitute_args(hval, actual) if hval is not None else None, t.get("line")))
     return out
 
 
@@ -389,7 +401,7 @@ def rule_idx(fx, rep):
                 ok = False
                 rep.obligation(False)
                 rep.violation("C19-IDX", f"C19-IDX/{fn}/resize", f"`{fn}` changes the table's length ({cn}) while an index is live", {"fn": b.name, "file": b.file, "line": t.get("line")})
-    rep.rule("C19-IDX", n, 4, ok, "slot index provenance")
+    rep.rule("C19-IDX", n, 3, ok, "slot index provenance")
 
 
 def const_writes(body, field):
